@@ -16,6 +16,8 @@ pub use indicators::EnergyIndicators;
 pub use props::EnergyProps;
 pub use radiation::ray_dir_to_sun;
 pub use raytracing::{Bounded, Intersectable, Ray, AABB, BVH};
+#[cfg(pachi_cteenergymodel_verif)]
+pub use raytracing::verif_bvh_stats;
 
 use crate::Model;
 
